@@ -65,6 +65,8 @@ func (g *generator) mapKey() key {
 	switch g.r.Intn(12) {
 	case 3, 4:
 		return key{kind: 's', s: common.Pick(g.r, collidingKeys)}
+	case 5:
+		return key{kind: '0'}
 	case 0:
 		return key{kind: 'n', n: g.r.Range(0, 40)}
 	case 1:
@@ -150,6 +152,8 @@ func keyOfGo(k any) (key, bool) {
 		return key{kind: 's', s: k}, true
 	case int:
 		return key{kind: 'n', n: k}, true
+	case nil:
+		return key{kind: '0'}, true
 	case vals.List:
 		out := key{kind: 'k'}
 		for it := k.Iterator(); it.HasElem(); it.Next() {
@@ -302,6 +306,8 @@ func goKey(k key) any {
 		return k.s
 	case 'n':
 		return k.n
+	case '0':
+		return nil
 	}
 	items := make([]any, len(k.l))
 	for i, s := range k.l {
